@@ -84,3 +84,64 @@ Theorem unlocked_member_refuted : exists progs sched t1 t2,
   let s := crun (start progs) sched in
   t1 <> t2 /\ is_inside (threads s t1) = true /\ is_inside (threads s t2) = true.
 Proof. exists (fun _ => [BUnlocked]), [0; 1], 0, 1. cbn. repeat split; discriminate. Qed.
+
+(* ---------- the wrapped allocator sees a serial history ---------- *)
+Lemma inside_iff s : TInv s -> forall t, is_inside (threads s t) = true <-> inside_now s = Some t.
+Proof.
+  intros [Hc Ho] t. unfold inside_now. split.
+  - intros H. assert (Hh : holds (threads s t) = true).
+    { destruct (Hc t) as [_ Hx]. destruct (threads s t); cbn in *; try discriminate; try reflexivity. contradiction. }
+    destruct (owner s) as [o|]; [|rewrite Ho in Hh; discriminate]. destruct Ho as [Ho1 Ho2].
+    destruct (Nat.eq_dec t o) as [->|N]; [rewrite H; reflexivity|]. rewrite (Ho2 t N) in Hh. discriminate.
+  - destruct (owner s) as [o|]; [|discriminate]. destruct (is_inside (threads s o)) eqn:E; [|discriminate]. intros H. inversion H; subst. exact E.
+Qed.
+
+Lemma inside_now_char s c : TInv s -> (forall t, is_inside (threads s t) = true <-> c = Some t) -> inside_now s = c.
+Proof.
+  intros Hi Hc. destruct (inside_now s) as [o|] eqn:E.
+  - apply (inside_iff s Hi) in E. apply Hc in E. congruence.
+  - destruct c as [t|]; [|reflexivity]. assert (is_inside (threads s t) = true) by (apply Hc; reflexivity).
+    apply (inside_iff s Hi) in H. congruence.
+Qed.
+
+Lemma cstep_others s t s' : cstep s t = Some s' -> forall i, i <> t -> threads s' i = threads s i.
+Proof.
+  intros H i Hi. unfold cstep in H.
+  destruct (threads s t) as [[|[k|] rest]|[|k] rest|k rest|rest]; try discriminate;
+    try (destruct (owner s); try discriminate); injection H as <-; cbn [threads]; apply upd_other; exact Hi.
+Qed.
+
+Theorem serial_history : forall sched s, TInv s -> serial (inside_now s) (ctrace s sched).
+Proof.
+  induction sched as [|t sched IH]; intros s Hi; cbn [ctrace]; [exact I|].
+  destruct (cstep s t) as [s'|] eqn:E; [|apply IH; exact Hi].
+  pose proof (cstep_inv s t s' Hi E) as Hi'. pose proof (cstep_others s t s' E) as Hoth.
+  specialize (IH s' Hi'). unfold pass_event.
+  destruct (is_inside (threads s t)) eqn:B; destruct (is_inside (threads s' t)) eqn:A; cbn [app serial].
+  - (* stays inside *)
+    replace (inside_now s) with (inside_now s'); [exact IH|]. apply inside_now_char; [exact Hi'|]. intros i. rewrite <- (inside_iff s Hi i).
+    destruct (Nat.eq_dec i t) as [->|N]; [rewrite A, B; tauto|rewrite (Hoth i N); tauto].
+  - (* leaves *)
+    split; [apply (inside_iff s Hi); exact B|].
+    replace (inside_now s') with (@None nat) in IH; [exact IH|]. symmetry. apply inside_now_char; [exact Hi'|]. intros i. split; [|discriminate].
+    intros Hin. exfalso. destruct (Nat.eq_dec i t) as [->|N]; [congruence|]. rewrite (Hoth i N) in Hin.
+    apply (inside_iff s Hi) in Hin. apply (inside_iff s Hi) in B. congruence.
+  - (* enters *)
+    split.
+    + apply inside_now_char; [exact Hi|]. intros i. split; [|discriminate]. intros Hin. exfalso.
+      destruct (Nat.eq_dec i t) as [->|N]; [congruence|]. rewrite <- (Hoth i N) in Hin.
+      apply (inside_iff s' Hi') in Hin. apply (inside_iff s' Hi') in A. congruence.
+    + replace (Some t) with (inside_now s'); [exact IH|]. apply (inside_iff s' Hi'). exact A.
+  - (* no pass event *)
+    replace (inside_now s) with (inside_now s'); [exact IH|]. apply inside_now_char; [exact Hi'|]. intros i. rewrite <- (inside_iff s Hi i).
+    destruct (Nat.eq_dec i t) as [->|N]; [rewrite A, B; tauto|rewrite (Hoth i N); tauto].
+Qed.
+
+(* C13: from the start, under any schedule, the passes through the wrapped allocator form a serial history: what the wrapped
+   allocator sees is one call after the other, so everything proved about sequential histories (C01..C07) applies to it *)
+Theorem wrapped_allocator_sees_serial_history progs sched : (forall t, all_locked (progs t) = true) -> serial None (ctrace (start progs) sched).
+Proof. intros Hp. apply (serial_history sched (start progs) (start_inv progs Hp)). Qed.
+
+(* ... and the hypothesis is needed here too *)
+Theorem unlocked_member_not_serial : exists progs sched, ~ serial None (ctrace (start progs) sched).
+Proof. exists (fun _ => [BUnlocked]), [0; 1]. cbn. intros [_ [H _]]. discriminate. Qed.
